@@ -14,6 +14,7 @@ import (
 	"github.com/hujm2023/go-sms-protocol/datacoding"
 	"github.com/hujm2023/go-sms-protocol/smpp"
 	"github.com/hujm2023/go-sms-protocol/smpp/smpp34"
+	"golang.org/x/text/encoding/simplifiedchinese"
 
 	"verif/sim/core"
 )
@@ -159,18 +160,33 @@ func greedyParts(f family, text string) int {
 // text generator
 
 var multiUnit = map[family][]string{
-	famGSM7U: {"[", "]", "{", "}", "^", "~", "|", "\\", "€", "\f"},
-	famGSM7P: {"[", "]", "{", "}", "^", "~", "|", "\\", "€", "\f"},
+	famGSM7U: {"[", "]", "{", "}", "^", "~", "|", "\\", "€", "\f", "\r", "@", "\r["},
+	famGSM7P: {"[", "]", "{", "}", "^", "~", "|", "\\", "€", "\f", "\r", "@", "\r["},
 	famUCS2:  {"😀", "𝄞", "𠀀", "🚀", "🏳\ufe0f", "👨\u200d👩", "😀\u0301", "❤\ufe0f", "e\u0301", "\ufe0f", "\u200d", "👍🏽"},
 	famGBK:   {"中", "文", "😀", "À", "𠀀", "é"},
+}
+
+// GB18030 characters on the edges of the octet classes (lead 0x81 / 0xFE, trail 0x40 / 0x7E / 0x80 / 0xFE, the
+// first and last four-octet sequences of each block), derived through the reference codec.
+func init() {
+	for _, b := range [][]byte{{0x81, 0x40}, {0x81, 0x7e}, {0x81, 0x80}, {0x81, 0xfe}, {0xfe, 0x40}, {0xfe, 0x7e}, {0xfe, 0x80}, {0xfd, 0xfe}, {0xa1, 0xa1}, {0x90, 0x80},
+		{0x81, 0x30, 0x81, 0x30}, {0x81, 0x39, 0xfe, 0x39}, {0x84, 0x31, 0xa4, 0x39}, {0x90, 0x30, 0x81, 0x30}, {0xe3, 0x32, 0x9a, 0x35}, {0x81, 0x30, 0x84, 0x36}} {
+		t, err := simplifiedchinese.GB18030.NewDecoder().Bytes(b)
+		if err != nil || strings.ContainsRune(string(t), '\ufffd') || len([]rune(string(t))) != 1 {
+			continue
+		}
+		if back, ok := refEncode(famGBK, string(t)); ok && bytes.Equal(back, b) {
+			multiUnit[famGBK] = append(multiUnit[famGBK], string(t))
+		}
+	}
 }
 
 var fillers = map[family]string{
 	famASCII:  "abcdefghijklmnopqrstuvwxyz0123456789 ",
 	famUCS2:   "abc中文дж éß",
 	famGBK:    "abcdefgh xyz",
-	famGSM7U:  "abcdefghijklmnopqrstuvwxyz @£$_ΔΦ0123456789",
-	famGSM7P:  "abcdefghijklmnopqrstuvwxyz @£$_ΔΦ0123456789",
+	famGSM7U:  "abcdefghijklmnopqrstuvwxyz @£$_ΔΦ0123456789\r\n",
+	famGSM7P:  "abcdefghijklmnopqrstuvwxyz @£$_ΔΦ0123456789\r\n",
 	famLatin1: "abcdefgh éüñß€‘’ xyz",
 }
 
@@ -281,6 +297,17 @@ type airPart struct {
 	payload []byte
 }
 
+// magicPrefix: beginnings whose encoding under the family is 05 00 03 ref total seq or 06 08 04 ref ref total seq
+// with plausible counters - ordinary text all the same.
+var magicPrefix = map[family][]string{
+	famGSM7U:  {"é@¥xza", "ùòèxxza", "é@¥"},
+	famGSM7P:  {"é@¥xza", "ùòèxxza", "é@¥"},
+	famUCS2:   {"\u0500\u03a9\u7a61", "\u0608\u0410\u7a61\u0141", "\u0500\u0300"},
+	famASCII:  {"\x05\x00\x03xza", "\x06\x08\x04xxza"},
+	famLatin1: {"\x05\x00\x03xza", "\x06\x08\x04xxza"},
+	famGBK:    {"\x05\x00\x03xza", "\x06\x08\x04xxza"},
+}
+
 // nearRepertoire: characters that sit next to a repertoire's members - case or accent variants of members, members
 // that resemble non-members - so that a table entry too many or too few shows.
 var nearRepertoire = map[family][]rune{
@@ -356,6 +383,11 @@ func runLongSMS(r *core.Run) {
 			rs[c.Intn(len(rs))] = []rune(c1Controls[c.Intn(len(c1Controls))])[0]
 			m.text = string(rs)
 			r.Probe("latin1_c1_control")
+		}
+		// a text whose own encoding begins like a concatenation header (05 00 03 … / 06 08 04 …)
+		if mp := magicPrefix[gf]; len(mp) > 0 && !m.vendor && c.Prob(1, 12) {
+			m.text = mp[c.Intn(len(mp))] + m.text
+			r.Probe("text_begins_like_a_header")
 		}
 		// one character replaced by a look-alike from just outside (or just inside) the requested repertoire: the
 		// reported coding must follow the reference repertoire, not a generous table
